@@ -11,6 +11,7 @@ genmode flow|cb ok|fail|panic      the harness' own generator (flow strategy 7 /
 clear <mod>                        => ok|err
 clearres <mod> <res>               => ok|err
 get <mod>                          => [rule,…] sorted
+getord <mod>                       => GetRules grouped by resource (sorted), order within a resource kept (flow|iso|hot|cb|sys)
 getres <mod> <res>                 => [rule,…] in order      (flow|iso|hot|cb)
 ctrlhist <mod> <res>               => controller identities, stable over the case (per resource, first-shown order); spec: ?
 ctrlids <mod> <res>                => identity classes of the controller objects in force, first-appearance order (flow|hot|cb)
@@ -229,6 +230,15 @@ partial def Slot.handle (sl : Slot R) (spec : Bool) (ts : List String) : Option 
     let reg := ids.foldl (fun r i => if r.contains (res, i) then r else r ++ [(res, i)]) sl.reg
     let mine := (reg.filter (·.1 == res)).map Prod.snd
     ({ sl with reg := reg }, some (showList (ids.map fun i => toString (mine.idxOf i))))
+  | ["getord", _] => some <|
+    -- GetRules grouped by resource (sorted), the order within a resource kept: only issued right after a whole-set load
+    if spec then
+      let ks := sortStrs sl.Lkeys.eraseDups
+      (sl, some (wrapGet sl ks (showList ((groupStable sl.M.res ks (ks.flatMap sl.specEnf)).map sl.shw))))
+    else
+      let all := getAll sl.st
+      let ks := sortStrs (all.map sl.M.res).eraseDups
+      (sl, some (showList ((groupStable sl.M.res ks all).map sl.shw)))
   | ["getres", _, res] => some <|
     let res := str res
     if spec then
@@ -280,6 +290,10 @@ def stepSys (spec : Bool) (s : St) (ts : List String) : St × Option String :=
   | ["get", _] =>
     let enf := if spec then sysBuild s.sysL else s.sys.enf
     (s, some (showList (sortStrs (enf.map showSys))))
+  | ["getord", _] =>
+    let enf := if spec then sysBuild s.sysL else s.sys.enf
+    let ks := ["0", "1", "2", "3", "4"]
+    (s, some (showList ((groupStable (fun r : SysRule => toString r.metric) ks enf).map showSys)))
   | ["probe", _] =>
     let enf := if spec then sysBuild s.sysL else s.sys.enf
     (s, some (pb (sysProbe enf)))
@@ -348,7 +362,11 @@ def step (spec : Bool) (s : St) (ts : List String) (_ : String) : St × Option S
     match b.toNat? with
     | some b => (s, some (pb (isoProbe (s.iso.enfOf spec (str res)) b)))
     | none => (s, some "bad-op")
-  | ["probe", "cb", res] => (s, some (s.cb.wrapProbe spec (str res) (pb (cbProbe (s.cb.enfOf spec (str res))))))
+  | ["probe", "cb", res] =>
+    -- the harness answers `?` when a rule the getter reports has a window longer than the idle gap
+    let shown := if spec then validList cbMod (s.cb.L (str res)) else getRes s.cb.st (str res)
+    if shown.any (fun r => decide (r.statMs > 90000)) then (s, some "?") else
+    (s, some (s.cb.wrapProbe spec (str res) (match cbProbe (s.cb.enfOf spec (str res)) with | some x => pb x | none => "?")))
   | _ :: "flow" :: _ => match s.flow.handle spec ts with
       | some (sl, r) => ({ s with flow := sl }, r) | none => (s, some "bad-op")
   | _ :: "iso" :: _ => match s.iso.handle spec ts with
